@@ -411,6 +411,10 @@ func runMultiBCase(c *Case) string {
 	key := c.get("key", "mod2")
 	delay, _ := strconv.Atoi(c.get("delay", "0"))
 	order := parseInts(c.get("order", "-"))
+	cut := -1
+	if s := c.get("cut", "-"); s != "-" {
+		cut, _ = strconv.Atoi(s)
+	}
 	var scripts [][]Tok
 	if s := c.get("srcs", ""); s != "" {
 		for _, part := range strings.Split(s, ";") {
@@ -441,6 +445,7 @@ func runMultiBCase(c *Case) string {
 	}
 
 	var gid string
+	var sub ro.Subscription
 	done := make(chan struct{})
 	if blocking {
 		ready := make(chan string, 1)
@@ -454,11 +459,17 @@ func runMultiBCase(c *Case) string {
 			return "res " + c.id + " harness-timeout"
 		}
 	} else {
-		subscribe()
+		sub = subscribe()
+	}
+	if blocking && cut >= 0 {
+		return "res " + c.id + " unsupported" // the subscription is not available while Subscribe blocks
 	}
 
 	pos := make([]int, n)
-	for _, i := range order {
+	for idx, i := range order {
+		if idx == cut {
+			sub.Unsubscribe()
+		}
 		if i >= 0 && i < n && pos[i] < len(probes[i].script) {
 			k := pos[i]
 			if probes[i].script[k].kind == 'N' {
@@ -472,6 +483,9 @@ func runMultiBCase(c *Case) string {
 			}
 			r.tick()
 		}
+	}
+	if cut >= len(order) {
+		sub.Unsubscribe()
 	}
 	r.finish()
 
@@ -621,6 +635,14 @@ func genMultiB(tier string, seed int64, only string) []*Case {
 		kv = append(kv, extra...)
 		kv = append(kv, "srcs", scriptsString(scripts), "order", intsString(order))
 		cases = append(cases, newCase(id, kv...))
+		// now and then the same case with the downstream unsubscribing from outside at a random point
+		// (not for the operators that block inside Subscribe: the subscription is not available)
+		if v.op != "ConcatAll" && r.Intn(5) == 0 {
+			id++
+			kc := append([]string{}, kv[:len(kv)-4]...)
+			kc = append(kc, "cut", strconv.Itoa(r.Intn(len(order)+2)), "srcs", scriptsString(scripts), "order", intsString(order))
+			cases = append(cases, newCase(id, kc...))
+		}
 	}
 	// exhaustive: every tuple of script shapes x every interleaving
 	exhaustive := func(v mbVariant, n, maxLen int, outer string, sample int) {
@@ -685,22 +707,25 @@ func genMultiB(tier string, seed int64, only string) []*Case {
 			outers = []string{"C"}
 		}
 		for _, outer := range outers {
-			for n := v.minN; n <= v.maxN && n <= 3; n++ {
+			for n := v.minN; n <= v.maxN && n <= 4; n++ {
 				switch {
 				case n <= 1:
-					exhaustive(v, n, 3, outer, 1)
+					exhaustive(v, n, 4, outer, 1)
 				case n == 2 && thorough:
-					exhaustive(v, n, 3, outer, 1)
+					exhaustive(v, n, 4, outer, 1)
 				case n == 2:
-					exhaustive(v, n, 2, outer, 1)
-				case n == 3 && thorough && v.primary:
-					exhaustive(v, n, 2, outer, 1)
+					exhaustive(v, n, 3, outer, 1)
 				case n == 3 && thorough:
-					exhaustive(v, n, 2, outer, 8)
+					exhaustive(v, n, 2, outer, 1)
 				case n == 3 && v.primary:
+					exhaustive(v, n, 2, outer, 6)
 					exhaustive(v, n, 1, outer, 1)
-				default:
+				case n == 3:
+					exhaustive(v, n, 1, outer, 2)
+				case n == 4 && thorough && v.primary:
 					exhaustive(v, n, 1, outer, 4)
+				case n == 4 && thorough:
+					exhaustive(v, n, 1, outer, 40)
 				}
 			}
 		}
